@@ -14,6 +14,8 @@ struct interpolate_arg {
 
 	struct arena_scope	*eternal;
 	struct arena		*scratch;
+	/* Optional path and line number used in diagnostics. */
+	const char		*path;
 	int			 lno;
 	unsigned int		 flags;
 #define INTERPOLATE_IGNORE_LOOKUP_ERRORS	0x00000001u
